@@ -190,7 +190,7 @@ theorem tailPos (P : Int) (hP : 0 < P) :
     · have h1 : P % 18446744073709551616 = P := by omega
       have h2 : P - 18446744073709551616 < 0 := by omega
       have h3 : ¬ (-9223372036854775808 ≤ P ∧ P < 9223372036854775808) := by omega
-      simp [hhi, h1, hsmall, h2, h3]
+      simp [hhi, h1, hsmall, h2]
   · have h3 : ¬ (-9223372036854775808 ≤ P ∧ P < 9223372036854775808) := by omega
     simp [hhi, h3]
 
@@ -218,10 +218,10 @@ theorem tailNeg (P : Int) (hP : 0 < P) :
     by_cases hsmall : P ≤ 9223372036854775808
     · have h2 : -P < 0 := by omega
       have h3 : (-9223372036854775808 ≤ -P ∧ -P < 9223372036854775808) := by omega
-      simp [hhi, hsmall, h2, h3, hP]
+      simp [hhi, hsmall, h3, hP]
     · have h2 : ¬ 18446744073709551616 - P < 0 := by omega
       have h3 : ¬ (-9223372036854775808 ≤ -P ∧ -P < 9223372036854775808) := by omega
-      simp [hhi, hsmall, h2, h3]
+      simp [hhi, hsmall, h2]
   · have h3 : ¬ (-9223372036854775808 ≤ -P ∧ -P < 9223372036854775808) := by omega
     rw [if_neg h3]
     simp [hhi]
